@@ -26,6 +26,7 @@ mk MC_voteq.cfg   Spec "$INV" 2 NK12  K4 SetsD  1 0 2 1 1 1  0   AllV  GoodR  2 
 mk MC_vote2.cfg   Spec "$INV" 2 NK12  K4 SetsD  2 0 2 1 1 1  1   ByzV  NoAdv  2  0  TRUE
 mk MC_change.cfg    Spec "$INV" 2 NK23  K4 SetsA  2 1 2 1 1 2  0   ChgV  SetR   2  0  FALSE
 mk MC_changeq.cfg Spec "$INV" 2 NK23  K4 SetsA  2 1 2 1 2 2  0   ChgV  SetR   1  0  FALSE
+mk MC_early.cfg   Spec "$INV" 1 NK2   K4 SetsA  2 1 2 1 1 2  3   IdxV  NoAdv  2  0  FALSE
 mk MC_small.cfg   Spec "$INV" 2 NK12  K4 SetsC2 2 1 1 1 1 1  0   NoAdv GoodR  1  1  TRUE
 # named deviations: each must be refuted
 mk MC_dev_heightback.cfg  Spec "$INV" 1 NK0  K5 SetsB  3 2 2 1 1 3 0 NoAdv AllR  3 1 FALSE HeightBack=TRUE
@@ -36,5 +37,5 @@ mk MC_dev_votetwice.cfg   Spec "$INV" 2 NK12 K4 SetsD  1 0 2 1 1 1 0 AllV  GoodR
 mk MC_dev_wrongmsg.cfg    Spec "$INV" 2 NK12 K4 SetsD  1 0 2 1 1 1 0 AllV  GoodR 2 0 TRUE  BugWrongMsg=TRUE
 mk MC_dev_fewer.cfg       Spec "$INV" 2 NK12 K4 SetsD  1 0 2 1 1 1 0 AllV  GoodR 2 0 TRUE  BugFewer=TRUE
 mk MC_dev_oldset.cfg      Spec "$INV" 2 NK23 K4 SetsA  2 1 2 1 2 2 0 ChgV  SetR  1 0 FALSE BugOldSet=TRUE
-mk MC_dev_stalesv.cfg     Spec "$INV" 2 NK23 K4 SetsA  2 1 2 1 2 2 0 ChgV  SetR  2 0 FALSE StaleSv=TRUE
+mk MC_dev_stalesv.cfg     Spec "$INV" 1 NK2  K4 SetsA  2 1 2 1 1 2 3 IdxV  NoAdv 2 0 FALSE StaleSv=TRUE
 mk MC_dev_keepforever.cfg Spec "$INV" 2 NK12 K4 SetsC2 2 1 1 1 1 1 0 NoAdv GoodR 1 1 TRUE  BugKeepForever=TRUE
